@@ -18,10 +18,13 @@ from rtmon.props import _hist
 LEVEL = "exploration"
 WORKERS = 14
 CASE_TIMEOUT = 300
-REQUIRED_OBS = ["multiset_checks", "examples_read", "refused_creates"]
+REQUIRED_OBS = ["multiset_checks", "examples_read", "refused_creates", "completed_sessions_after_a_failed_one",
+                "sessions_after_chdir"]
 RULE = ("random histories of 1..6 sessions biased towards reused and nested sub-directories, alternating splits, "
         "reopen vs keep handle, all formats. Distinct = history shape; non-trivial iff >=2 sessions.")
-ASSUMPTIONS = ["one live handle at a time", "histories contain only valid writes"]
+ASSUMPTIONS = ["one live handle at a time", "histories contain only valid writes",
+               "what a failed session (the caller's with-body raises) leaves behind is not specified; the completed "
+               "sessions after it are checked against the state found before them"]
 
 
 def gen_cases(tier: str, seed: int) -> list[dict]:
@@ -33,10 +36,185 @@ def gen_cases(tier: str, seed: int) -> list[dict]:
         if len(hist["sessions"]) < 2 and k % 3:
             hist["sessions"].append(dict(hist["sessions"][0], reopen=bool(k % 2)))
         cases.append({"hist": hist, "create_after": rng.randrange(len(hist["sessions"]))})
+    # a session whose body fails (the caller's own code raises) sits between completed sessions: whatever it leaves
+    # behind, the completed session after it must add exactly its own examples
+    for k in range(30 if tier == "quick" else 400):
+        eps = rng.choice([1, 2, 3, 4])
+        dirs = [None, "part", "a/b"]
+        cases.append({"kind": "failed-between", "fmt": ["fb", "npz", "tfrec"][k % 3], "eps": eps,
+                      "dir_failed": rng.choice(dirs), "same_dir": rng.random() < 0.7,
+                      "failed_writes": rng.choice([1, eps, eps + 1, 2 * eps, 2 * eps + 1, 3 * eps + 1]),
+                      "reopen_after_failure": rng.random() < 0.5, "seed": rng.randrange(1 << 30)})
+    # a dataset named by a path relative to the working directory, a kept handle, and a chdir between sessions
+    for k in range(12 if tier == "quick" else 120):
+        cases.append({"kind": "relative-root", "fmt": ["fb", "npz", "tfrec"][k % 3], "eps": rng.choice([1, 2, 3]),
+                      "spelling": rng.choice(["data/ds", "./data/ds", "data/../data/ds"]),
+                      "subdir": rng.choice([None, "part"]), "seed": rng.randrange(1 << 30)})
     return cases
 
 
+class CallerFailure(RuntimeError):
+    """Raised by the harness inside a filler's with-block (stands for a failure of the caller's own code)."""
+
+
+def run_failed_between(case: dict) -> dict:
+    from pathlib import Path
+    from sedpack.io import Dataset, DatasetFiller
+    from rtmon import ds as dsmod
+    rng = random.Random(case["seed"])
+    work = common.new_workdir("c08f")
+    violations: list[dict] = []
+    obs: Counter = Counter()
+    fmt, eps = case["fmt"], case["eps"]
+    try:
+        root = work / "ds"
+        dataset = dsmod.create(root, fmt, "", eps)
+        counters: Counter = Counter()
+
+        def filler_for(handle, directory):
+            return handle.filler() if directory is None else DatasetFiller(handle, relative_path_from_split=Path(directory))
+
+        def session(handle, directory, number, count, fail=False):
+            written = []
+            try:
+                with filler_for(handle, directory) as filler:
+                    for _ in range(count):
+                        split = rng.choice(["train", "train", "test"])
+                        ident = dsmod.make_id(split, number, 0, counters[number])
+                        counters[number] += 1
+                        filler.write_example(values=dsmod.example(ident), split=split)
+                        written.append((split, ident))
+                    if fail:
+                        raise CallerFailure("the caller's loop body failed")
+            except CallerFailure:
+                pass
+            return written
+
+        def state():
+            fresh = Dataset(root)
+            out = {}
+            for split in ("train", "test"):
+                if split in fresh._dataset_info.splits:  # pylint: disable=protected-access
+                    ids, problems = dsmod.ids_of(fresh.as_numpy_iterator(split=split, shuffle=0, repeat=False))
+                    for problem in problems:
+                        violations.append({"key": "payload-changed", "msg": problem})
+                    out[split] = Counter(ids)
+                else:
+                    out[split] = Counter()
+            return out
+
+        directory = case["dir_failed"]
+        other = directory if case["same_dir"] else rng.choice([d for d in (None, "part", "a/b", "other") if d != directory])
+        first = session(dataset, directory, 0, rng.randint(1, 2 * eps + 1))
+        committed = Counter()
+        before_failure = state()
+        for split in ("train", "test"):
+            want = Counter(i for s, i in first if s == split)
+            if before_failure[split] != want:
+                violations.append({"key": "not-append-only", "msg": f"first session: split {split} holds "
+                                                                    f"{sum(before_failure[split].values())} of {sum(want.values())}"})
+        session(dataset, directory, 1, case["failed_writes"], fail=True)
+        obs["failed_sessions"] += 1
+        after_failure = state()
+        for split in ("train", "test"):
+            if before_failure[split] - after_failure[split]:
+                violations.append({"key": "committed-examples-lost-by-failed-session",
+                                   "msg": f"{fmt} split {split}: {sum((before_failure[split] - after_failure[split]).values())} "
+                                          f"examples of the completed first session are gone after a failed session"})
+        if case["reopen_after_failure"]:
+            dataset = Dataset(root)
+        current = after_failure
+        for number, target in ((2, other), (3, directory)):
+            written = session(dataset, target, number, rng.randint(1, 2 * eps + 1))
+            now = state()
+            obs["completed_sessions_after_a_failed_one"] += 1
+            obs["multiset_checks"] += 2
+            for split in ("train", "test"):
+                want = current[split] + Counter(i for s, i in written if s == split)
+                obs["examples_read"] += sum(now[split].values())
+                if now[split] != want:
+                    added = now[split] - current[split]
+                    violations.append({"key": "session-after-failed-one-adds-more-than-it-wrote"
+                                       if (now[split] - want) else "not-append-only",
+                                       "msg": f"{fmt} eps={eps} failed session ({case['failed_writes']} writes) in "
+                                              f"{directory or 'the root'}, then a completed session {number} into "
+                                              f"{target or 'the root'} ({'reopened' if case['reopen_after_failure'] else 'kept'} handle): split "
+                                              f"{split} gained {sum(added.values())} examples, the session wrote "
+                                              f"{sum(1 for s, _ in written if s == split)}; unexpected "
+                                              f"{list((now[split] - want).elements())[:4]} missing {list((want - now[split]).elements())[:4]}"})
+            current = now
+        return {"sig": ["failed-between", fmt, eps, str(directory), case["same_dir"], case["failed_writes"] > eps,
+                        case["reopen_after_failure"]],
+                "nontrivial": True, "violations": violations, "obs": dict(obs),
+                "sample": {"fmt": fmt, "failed_between": True, "dir": directory, "failed_writes": case["failed_writes"]}}
+    finally:
+        common.rm(work)
+
+
+def run_relative_root(case: dict) -> dict:
+    import os
+    from pathlib import Path
+    from sedpack.io import Dataset, DatasetFiller
+    from rtmon import ds as dsmod
+    rng = random.Random(case["seed"])
+    work = common.new_workdir("c08r")
+    violations: list[dict] = []
+    obs: Counter = Counter()
+    fmt, eps = case["fmt"], case["eps"]
+    home = os.getcwd()
+    try:
+        project = work / "project"
+        (project / "data").mkdir(parents=True)
+        (project / "elsewhere" / "deeper").mkdir(parents=True)
+        os.chdir(project)
+        dataset = dsmod.create(Path(case["spelling"]), fmt, "", eps)
+        root = project / "data" / "ds"
+        want: dict = {"train": Counter(), "test": Counter()}
+        places = [project / "elsewhere", project / "elsewhere" / "deeper", work, project]
+        for number in range(4):
+            if number:
+                os.chdir(places[number % len(places)] if number < 3 else rng.choice(places))
+            cm = dataset.filler() if case["subdir"] is None else DatasetFiller(dataset, relative_path_from_split=Path(case["subdir"]))
+            with cm as filler:
+                for seq in range(rng.randint(1, 2 * eps + 1)):
+                    split = rng.choice(["train", "train", "test"])
+                    ident = dsmod.make_id(split, number, 0, seq)
+                    filler.write_example(values=dsmod.example(ident), split=split)
+                    want[split][ident] += 1
+            obs["sessions_after_chdir"] += int(number > 0)
+            for name, handle in (("kept", dataset), ("fresh-absolute", Dataset(root))):
+                for split in ("train", "test"):
+                    if not want[split]:
+                        continue
+                    try:
+                        ids, _ = dsmod.ids_of(handle.as_numpy_iterator(split=split, shuffle=0, repeat=False))
+                    except Exception as exc:  # pylint: disable=broad-exception-caught
+                        violations.append({"key": f"relative-root/iteration-raised/{name}", "msg": f"{type(exc).__name__}: {str(exc)[:200]}"})
+                        continue
+                    obs["multiset_checks"] += 1
+                    obs["examples_read"] += len(ids)
+                    if Counter(ids) != want[split]:
+                        violations.append({"key": f"relative-root/not-append-only/{name}-handle",
+                                           "msg": f"{fmt} dataset created as {case['spelling']!r}, session {number} after chdir to "
+                                                  f"{os.getcwd()}: the {name} handle iterates {len(ids)} examples of split {split}, "
+                                                  f"{sum(want[split].values())} were written"})
+        stray = [str(p.relative_to(work)) for p in work.rglob("*") if p.is_file() and root not in p.parents]
+        if stray:
+            violations.append({"key": "relative-root/files-written-outside-the-dataset",
+                               "msg": f"{fmt} dataset created as {case['spelling']!r}: files appeared outside {root}: {stray[:5]}"})
+        return {"sig": ["relative-root", fmt, eps, case["spelling"], str(case["subdir"])], "nontrivial": True,
+                "violations": violations, "obs": dict(obs),
+                "sample": {"fmt": fmt, "relative_root": case["spelling"]}}
+    finally:
+        os.chdir(home)
+        common.rm(work)
+
+
 def run_case(case: dict) -> dict:
+    if case.get("kind") == "failed-between":
+        return run_failed_between(case)
+    if case.get("kind") == "relative-root":
+        return run_relative_root(case)
     hist = case["hist"]
     work = common.new_workdir("c08")
     violations: list[dict] = []
